@@ -238,6 +238,7 @@ func c19One(env *Env, m *wvlib.Model, c *C19Case) {
 		var mu sync.Mutex
 		done := 0
 		snapped := false
+		snapFailed := false
 		st := archiver.ExtractSettings{Consumer: cons, Concurrency: c.Workers}
 		if c.Interrupt >= 0 {
 			st.ResumeFrom = resume
@@ -250,8 +251,14 @@ func c19One(env *Env, m *wvlib.Model, c *C19Case) {
 					// the state a crash would leave behind: the resume file first (every entry it
 					// vouches for is complete and stays so), then the directory, which other workers
 					// keep writing to while it is copied (partially written later entries included)
-					exec.Command("cp", resume, snapDir+".resume").Run()
-					copyTree(out, snapDir)
+					e1 := exec.Command("cp", resume, snapDir+".resume").Run()
+					e2 := copyTree(out, snapDir)
+					if e1 != nil || e2 != nil {
+						// the copy itself failed (cp skips what it cannot open and exits non-zero, e.g. when the
+						// machine runs out of file handles under load): what it left is not a state a crash of the
+						// extraction can leave, so there is nothing to restart from
+						snapFailed = true
+					}
 				}
 			}
 		}
@@ -291,8 +298,12 @@ func c19One(env *Env, m *wvlib.Model, c *C19Case) {
 			}
 			env.R.Violate(cls, fmt.Sprintf("workers=%d: reported %d/%d/%d dirs/files/symlinks, extracted %d/%d/%d", c.Workers, res.Dirs, res.Files, res.Symlinks, wd, wf, wl), c)
 		}
-		if snapped {
+		if snapped && snapFailed {
+			env.R.Count("snapshot-copy-failed", 1)
+		}
+		if snapped && !snapFailed {
 			// restart from the crash state with the same resume file
+			resumeAt, _ := os.ReadFile(snapDir + ".resume")
 			st2 := archiver.ExtractSettings{Consumer: cons, Concurrency: c.Workers, ResumeFrom: snapDir + ".resume"}
 			if _, err := os.Stat(snapDir); err != nil {
 				os.MkdirAll(snapDir, 0o755)
@@ -302,12 +313,16 @@ func c19One(env *Env, m *wvlib.Model, c *C19Case) {
 				env.R.Violate("restart-error:zip", err.Error(), c)
 			} else {
 				got2, _ := wvlib.ReadTree(snapDir)
-				if d := wvlib.DiffTrees(got2, tree); d != "" {
+				if got2.ReadErr != "" {
+					// the harness could not list the directory (after retries): nothing can be said
+					env.R.Count("tree-listing-failed", 1)
+					env.R.Note("listing %s failed: %s", snapDir, got2.ReadErr)
+				} else if d := wvlib.DiffTrees(got2, tree); d != "" {
 					cls := "restart-incomplete:zip"
 					if c.Workers != 1 {
 						cls = "restart-incomplete:zip:multi-worker"
 					}
-					env.R.Violate(cls, fmt.Sprintf("workers=%d interrupt after entry %d: %s", c.Workers, c.Interrupt, d), c)
+					env.R.Violate(cls, fmt.Sprintf("workers=%d interrupt after entry %d, resume file of the crash state says %q, %d of %d entries differ: %s", c.Workers, c.Interrupt, string(resumeAt), strings.Count(d, ";")+1, len(tree.Entries), d), c)
 				}
 			}
 			env.R.Count("restarts", 1)
